@@ -1,3 +1,4 @@
+pub mod c01;
 pub mod c07;
 pub mod c08;
 pub mod c09;
@@ -8,15 +9,17 @@ use crate::runner::{Ctx, ReplayFile};
 
 pub type RunFn = fn(&mut Ctx);
 pub type ReplayFn = fn(&mut Ctx, &ReplayFile) -> bool;
+pub type WorkerFn = fn(&str, &[String]) -> bool;
 
-pub fn lookup(id: &str) -> Option<(&'static str, RunFn, ReplayFn, &'static str)> {
+pub fn lookup(id: &str) -> Option<(&'static str, RunFn, ReplayFn, &'static str, WorkerFn)> {
     // (id, run, replay, level)
     Some(match id {
-        "C07" => ("C07", c07::run, c07::replay, "exploration"),
-        "C08" => ("C08", c08::run, c08::replay, "exploration"),
-        "C09" => ("C09", c09::run, c09::replay, "exploration"),
-        "C16" => ("C16", c16::run, c16::replay, "exploration"),
-        "C17" => ("C17", c17::run, c17::replay, "exploration"),
+        "C01" => ("C01", c01::run, c01::replay_any, "exploration", c01::worker),
+        "C07" => ("C07", c07::run, c07::replay, "exploration", c07::worker),
+        "C08" => ("C08", c08::run, c08::replay, "exploration", c08::worker),
+        "C09" => ("C09", c09::run, c09::replay, "exploration", c09::worker),
+        "C16" => ("C16", c16::run, c16::replay, "exploration", c16::worker),
+        "C17" => ("C17", c17::run, c17::replay, "exploration", c17::worker),
         _ => return None,
     })
 }
